@@ -289,7 +289,9 @@ public:
 		_deleteOnExit = false;
 		Context<F> s = { f, this, false, 0, 0, 0 };
 		run((Function_)Thread::beginf<F>, (void*)&s);
+		ASL_VERIF_POINT(15, &s);
 		while (!s.ready) {}
+		ASL_VERIF_POINT(16, &s);
 	}
 	template<class Func>
 	static Thread start(const Func& f, Thread* t)
